@@ -2,6 +2,7 @@ package rules
 
 import (
 	"fmt"
+	"strings"
 	"go/token"
 	"go/types"
 
@@ -17,7 +18,9 @@ const digestPkg = "github.com/opencontainers/go-digest"
 // entries that name it.
 type hashSite struct {
 	fn      *ssa.Function
-	from    *ssa.Call // Algorithm.FromBytes(x)
+	from    *ssa.Call // Algorithm.FromBytes(x), or the call of a helper that returns such a digest of one of its arguments
+	dig     ssa.Value // the digest value in fn: from itself, or the extracted result of the helper call
+	helper  *ssa.Function
 	bytes   ssa.Value // origin of x
 	create  ssa.CallInstruction
 	session ssa.Value
@@ -39,15 +42,38 @@ func hashSites(c *core.Ctx) []*hashSite {
 		for _, fn := range funcs {
 			an.Calls(fn, func(call ssa.CallInstruction) {
 				fc, ok := call.(*ssa.Call)
-				if !ok || !an.IsMethod(call, digestPkg, "Algorithm", "FromBytes") || len(fc.Call.Args) != 2 {
+				if !ok {
 					return
 				}
-				hs := &hashSite{fn: fn, from: fc, bytes: an.Origin(fc.Call.Args[1])}
+				var hs *hashSite
+				if an.IsMethod(call, digestPkg, "Algorithm", "FromBytes") && len(fc.Call.Args) == 2 {
+					hs = &hashSite{fn: fn, from: fc, dig: fc, bytes: an.Origin(fc.Call.Args[1])}
+				} else if h, ri, pi, ok := hashingHelper(c, fc); ok {
+					// a helper of this module that returns the digest of one of its arguments
+					var dv ssa.Value = fc
+					if fc.Call.Signature().Results().Len() > 1 {
+						dv = nil
+						if fc.Referrers() != nil {
+							for _, ref := range *fc.Referrers() {
+								if ex, ok := ref.(*ssa.Extract); ok && ex.Index == ri {
+									dv = ex
+								}
+							}
+						}
+					}
+					if dv != nil && pi < len(fc.Call.Args) {
+						hs = &hashSite{fn: fn, from: fc, dig: dv, helper: h, bytes: an.Origin(fc.Call.Args[pi])}
+					}
+				}
+				if hs == nil {
+					return
+				}
+				isDig := func(v ssa.Value) bool { return an.Origin(v) == hs.dig || an.Strip(v) == hs.dig }
 				an.Calls(fn, func(c2 ssa.CallInstruction) {
 					if isBlobCreate(r, c2) {
 						if ds, _ := withDigestArgs(r, c2); len(ds) > 0 {
 							for _, d := range ds {
-								if an.Origin(d) == ssa.Value(fc) {
+								if isDig(d) {
 									hs.create = c2
 								}
 							}
@@ -58,7 +84,7 @@ func hashSites(c *core.Ctx) []*hashSite {
 						if len(args) > 0 {
 							ss := structStores(args[0])
 							for _, dv := range ss["Digest"] {
-								if an.Origin(dv) == ssa.Value(fc) {
+								if isDig(dv) {
 									hs.inserts = append(hs.inserts, c2)
 									hs.descs = append(hs.descs, ss)
 								}
@@ -105,10 +131,10 @@ type cfState struct {
 }
 
 func init() {
-	register(&Rule{ID: "TS-HASHBYTES", Floor: 8,
+	register(&Rule{ID: "TS-HASHBYTES", Floor: 5,
 		Doc: "where a digest is computed from bytes (Algorithm.FromBytes) and a blob is created with that digest, the bytes written into the session are the same value that was hashed, the index entry records that digest with Size = len(of the same bytes), and — when the function also parses a digest from the request — the two are compared and the mismatch edge does not reach the blob creation",
 		Run: runHashBytes})
-	register(&Rule{ID: "TS-CONTENT-FIRST", Floor: 4,
+	register(&Rule{ID: "TS-CONTENT-FIRST", Floor: 2,
 		Doc: "every index entry (IndexInsert / Index.AddDesc) naming a digest computed in the function is preceded on all paths by ‘blob stored’: the ok-edge of Close on the session created with that digest, or the ‘already exists’ edge of that BlobCreate (the abstract value of both errors is tracked along every path)",
 		Run: runContentFirst})
 }
@@ -168,9 +194,9 @@ func runHashBytes(c *core.Ctx) {
 			}
 			var other ssa.Value
 			switch {
-			case an.Origin(x) == ssa.Value(hs.from):
+			case an.Origin(x) == hs.dig:
 				other = y
-			case an.Origin(y) == ssa.Value(hs.from):
+			case an.Origin(y) == hs.dig:
 				other = x
 			default:
 				continue
@@ -197,6 +223,43 @@ func runHashBytes(c *core.Ctx) {
 			}
 			if !reaches {
 				okCmp = true
+			}
+		}
+		if !found && hs.helper != nil {
+			// the helper compares the digest it computes with one of its arguments and returns the verdict as a boolean
+			if bi, ei, eqTrue, ok := helperCompares(hs.helper); ok && ei < len(hs.from.Call.Args) {
+				fromParse := false
+				for _, o := range an.Origins(hs.from.Call.Args[ei]) {
+					if pc, idx := an.CallOf(o); pc != nil && idx == 0 && an.IsFunc(pc, digestPkg, "Parse") {
+						fromParse = true
+					}
+				}
+				if fromParse {
+					for _, b := range hs.fn.Blocks {
+						ifi := an.BlockIf(b)
+						if ifi == nil {
+							continue
+						}
+						base, neg := an.CondBase(ifi.Cond)
+						ex, isEx := base.(*ssa.Extract)
+						if !isEx || ex.Tuple != ssa.Value(hs.from) || ex.Index != bi {
+							continue
+						}
+						found = true
+						// successor on which the digests differ
+						mis := 1
+						if !eqTrue {
+							mis = 0
+						}
+						if neg {
+							mis = 1 - mis
+						}
+						tb := b.Succs[mis]
+						if !(tb == hs.create.Block() || an.BlockReaches(tb, hs.create.Block())) {
+							okCmp = true
+						}
+					}
+				}
 			}
 		}
 		c.SetTags(append(append([]string{}, ftags...), "expected-digest")...)
@@ -314,7 +377,7 @@ type stiState struct {
 }
 
 func init() {
-	register(&Rule{ID: "TS-STORED-THEN-INDEXED", Floor: 4,
+	register(&Rule{ID: "TS-STORED-THEN-INDEXED", Floor: 2,
 		Doc: "the converse of TS-CONTENT-FIRST: once the blob created for a computed digest is stored (Close ok-edge) or reported as already existing, every path reaches the index insert naming that digest before the function acknowledges (2xx / `return nil`) or creates the next blob — ‘already stored’ must not be mistaken for ‘already indexed’",
 		Run: func(c *core.Ctx) {
 			r := requireRoles(c)
@@ -431,9 +494,9 @@ func runReferenceWins(c *core.Ctx, r *Roles, hs *hashSite, base string) {
 			continue
 		}
 		switch {
-		case an.Origin(x) == ssa.Value(hs.from):
+		case an.Origin(x) == hs.dig:
 			cmpIf, other = ifi, y
-		case an.Origin(y) == ssa.Value(hs.from):
+		case an.Origin(y) == hs.dig:
 			cmpIf, other = ifi, x
 		}
 	}
@@ -536,4 +599,114 @@ func runReferenceWins(c *core.Ctx, r *Roles, hs *hashSite, base string) {
 		}})
 	c.SetTags(append(siteTags(c, r, fn), "expected-digest")...)
 	c.Check(!bad, base+":reference-digest-wins", hs.from.Pos(), "on every path on which the reference is not a tag, the digest the body is compared with is the parse of the reference itself: %v — otherwise a query parameter can make a push under digest A store and acknowledge content that hashes to B", !bad)
+}
+
+// hashingHelper: call is a static call of a module function one of whose results is, on every non-error
+// return, Algorithm.FromBytes of one of its parameters. Returns the helper, the result index and the
+// parameter index (in the call's argument list).
+func hashingHelper(c *core.Ctx, call *ssa.Call) (*ssa.Function, int, int, bool) {
+	h := call.Call.StaticCallee()
+	if h == nil || len(h.Blocks) == 0 || !strings.HasPrefix(core.FuncPkgPath(h), c.P.Module) {
+		return nil, 0, 0, false
+	}
+	res := h.Signature.Results()
+	for ri := 0; ri < res.Len(); ri++ {
+		if !isNamed(res.At(ri).Type(), digestPkg, "Digest") {
+			continue
+		}
+		pi := -1
+		ok := true
+		n := 0
+		for _, b := range h.Blocks {
+			if len(b.Instrs) == 0 {
+				continue
+			}
+			ret, isRet := b.Instrs[len(b.Instrs)-1].(*ssa.Return)
+			if !isRet || len(ret.Results) != res.Len() {
+				continue
+			}
+			if last := ret.Results[len(ret.Results)-1]; an.IsErrorType(last.Type()) && (an.DefiniteError(last) || an.ReturnNonNilGuarded(ret, last)) {
+				continue
+			}
+			n++
+			found := false
+			for _, o := range an.Origins(ret.Results[ri]) {
+				fb, _ := an.CallOf(o)
+				if fb == nil || !an.IsMethod(fb, digestPkg, "Algorithm", "FromBytes") || len(fb.Call.Args) != 2 {
+					found = false
+					break
+				}
+				p, isParam := an.Origin(fb.Call.Args[1]).(*ssa.Parameter)
+				if !isParam {
+					found = false
+					break
+				}
+				idx := -1
+				for k, q := range h.Params {
+					if q == p {
+						idx = k
+					}
+				}
+				if idx < 0 || (pi >= 0 && pi != idx) {
+					found = false
+					break
+				}
+				pi = idx
+				found = true
+			}
+			if !found {
+				ok = false
+			}
+		}
+		if ok && n > 0 && pi >= 0 {
+			return h, ri, pi, true
+		}
+	}
+	return nil, 0, 0, false
+}
+
+// helperCompares: a boolean result of h is, on some return, the comparison of a FromBytes digest with one of h's
+// parameters. Returns the boolean result's index, the parameter's index, and whether true means ‘equal’.
+func helperCompares(h *ssa.Function) (int, int, bool, bool) {
+	res := h.Signature.Results()
+	for bi := 0; bi < res.Len(); bi++ {
+		bt, isB := res.At(bi).Type().Underlying().(*types.Basic)
+		if !isB || bt.Kind() != types.Bool {
+			continue
+		}
+		var out [3]int
+		found := false
+		an.Instrs(h, func(in ssa.Instruction) {
+			ret, ok := in.(*ssa.Return)
+			if !ok || len(ret.Results) != res.Len() {
+				return
+			}
+			for _, o := range an.Origins(ret.Results[bi]) {
+				bo, ok := o.(*ssa.BinOp)
+				if !ok || (bo.Op != token.EQL && bo.Op != token.NEQ) {
+					continue
+				}
+				for _, pair := range [][2]ssa.Value{{bo.X, bo.Y}, {bo.Y, bo.X}} {
+					fb, _ := an.CallOf(an.Origin(pair[0]))
+					p, isParam := an.Origin(pair[1]).(*ssa.Parameter)
+					if fb != nil && an.IsMethod(fb, digestPkg, "Algorithm", "FromBytes") && isParam {
+						for k, q := range h.Params {
+							if q == p {
+								eq := 0
+								if bo.Op == token.EQL {
+									eq = 1
+								}
+								out = [3]int{bi, k, eq}
+								found = true
+							}
+						}
+					}
+				}
+			}
+		})
+		if found {
+			return out[0], out[1], out[2] == 1, true
+		}
+	}
+	return 0, 0, false, false
 }
